@@ -212,7 +212,17 @@ class BeliefPropagationDecoder(BaseBlockDecoder[Union[LinearBlockCodeEncoder, LD
         self.n_c = self.H.size(0)
         self.prep_edge_ind()
         if not self.standard:
-            self.idx_mess_t = torch.where(self.G.sum(0) == 1)[0]
+            # Position of message bit i in the codeword: a column of G equal to the i-th unit vector
+            # (weight-1 columns alone are neither unique per message bit nor listed in message order).
+            positions = []
+            for i in range(self.G.size(0)):
+                unit = torch.zeros(self.G.size(0), 1, dtype=self.G.dtype, device=self.G.device)
+                unit[i] = 1
+                match = torch.where((self.G == unit).all(dim=0))[0]
+                if match.numel() == 0:
+                    raise ValueError("BeliefPropagationDecoder reads the message off the codeword positions that carry it: " f"the generator matrix has no column equal to unit vector {i} (the code is not systematic up to a column permutation)")
+                positions.append(match[0])
+            self.idx_mess_t = torch.stack(positions)
 
     def prep_edge_ind(self):
         """Prepare edge indices and map structures for the Tanner graph.
